@@ -131,6 +131,10 @@ def ncon_orders(ctx, quick):
         ([[1, 2, -0], [2, 3, -1], [3, 1, -2]], [(1, -1), (2, -2), (3, -0), (1, 2), (-0, -2), (2, 3)]),
         ([[-0, 1], [1, 2, 3], [2, -1], [3, -2]], [(1, -1), (2, -2), (3, -1), (2, 3), (1, -2), (-0, -2)]),
         ([[1, 2], [2, 3, -0], [3, 1, -1]], [(1, -0), (2, -1), (3, -0), (1, 3)]),
+        # traces inside one tensor, swaps on legs before, between and behind the traced pair
+        ([[1, 2, 1, -0, -1], [2, -2, -3]], [(-0, -3), (-1, -2), (2, -0), (-0, -1), (2, -3)]),
+        ([[1, -0, 1, 2, -1], [2, 3, -2], [3, -3]], [(-1, -2), (-0, -3), (2, -1), (3, -0), (-1, -3)]),
+        ([[-0, 1, 1, -1, 2], [2, -2]], [(-1, -2), (-0, -2), (2, -1), (-0, -1)]),
     ]
     nrep = 700 if quick else 8000
     for rep in range(nrep):
@@ -191,6 +195,27 @@ def ncon_orders(ctx, quick):
                 ctx.count('ncon_order_rejected:' + v[0])
         desc = dict(kind='ncon-orders', sym=sym, fermionic=repr(ferm), inds=inds, swap=swap, parities=[t.n for t in ts], rep=rep, seed=ctx.seed)
         ctx.case(desc, nontrivial=len(oks) > 1)
+        # the same network with every tensor presented in another leg order (labels moved along): one and the same tensor
+        if oks:
+            o0 = next(iter(oks))
+            for variant in range(2):
+                perms = []
+                for t in ts:
+                    pp = list(range(t.ndim)); rng.shuffle(pp); perms.append(pp)
+                ts2 = [t.transpose(tuple(pp)) for t, pp in zip(ts, perms)]
+                if variant:
+                    ts2 = [t.consume_transpose() for t in ts2]
+                inds2 = [[ii[k] for k in pp] for ii, pp in zip(inds, perms)]
+                try:
+                    r2 = ('ok', tgen.obs(yastn.ncon(ts2, inds2, order=o0, swap=swap)))
+                except (yastn.YastnError, AssertionError) as e:
+                    r2 = (type(e).__name__, str(e)[:80])
+                ctx.count('ncon_relabelled')
+                if r2 != oks[o0]:
+                    ctx.violation('ncon with swaps %r on network %r (sym %s, fermionic %r, tensor charges %r) changes when the tensors are given with their legs permuted %r '
+                                  '(labels moved along): %r vs %r' % (swap, inds, sym, ferm, [t.n for t in ts], perms, str(oks[o0])[:120], str(r2)[:120]),
+                                  dict(desc, perms=perms, variant=variant))
+                    break
         vals = set(v[1] for v in oks.values())
         if len(vals) > 1:
             o1 = next(iter(oks))
